@@ -42,15 +42,18 @@ META = dict(
                 "mutual_exclusion / inside_is_owner, different_names_independent + other_names_untouched, reentrant_no_block + "
                 "decision_matches_ownership, released_on_every_exit + unlock_frees_name + release_steps_never_block (the model's "
                 "release runs on every outcome BECAUSE it is deferred: that is the fact unlock_deferred_on_acquiring_path plus "
-                "generated exits by normal end, caught and uncaught error, return, break, continue and Go panic; "
+                "the 7 scripted exit kinds (normal end, raise caught / uncaught, return, break, continue, x.panic) — no interpreter-raised runtime error inside a block; "
                 "without_defer_error_leaks_lock is the counterexample), later_entrant_gets_in (safety) + waiter_progress / "
-                "single_name_no_deadlock (progress: a wait cycle needs two names in conflicting program order), "
+                "single_name_no_deadlock / ordered_names_no_deadlock (progress: with finitely many names nested by every "
+                "thread in one global order a waiting system always has a thread inside the protocol with an enabled step or a "
+                "holder executing its body; two_names_opposite_order_deadlock: without the order the real protocol deadlocks), "
                 "locked_has_live_holder, no_lost_update, ids_distinct (+ load-then-add / reset counterexamples, "
                 "id_counter_monotone, first_thread_id_positive)."),
     level_note=("Trusted: Lean kernel + propext/Classical.choice/Quot.sound; sync.Mutex is a correct lock; each MutexesMutex "
                 "section is one atomic, non-blocking event (supported by the facts table_uses_under_table_lock and "
                 "protocol_order_facts, which are syntactic go/ast analyses with `unknown` where aliases escape — none today); a thread IS its tid (two goroutines evaluating with one "
-                "tid re-enter each other's blocks — only tested: seeded sink-closure case) and there is ONE pool per provider "
+                "tid re-enter each other's blocks — fact no_literal_tid + tests: seeded sink-closure case, mode J concurrent "
+                "debugger injections; the InjectValue defect of this kind is repaired in /repo f411ead) and there is ONE pool per provider "
                 "(erp.Processor is an exported field; ids taken before it is replaced may collide with the new pool's — "
                 "mode I variant x observes this, it is not excluded); the trace replay expands an observed enter/exit by the "
                 "model's own state (which branch Go took and when it released is seen only through occupancy, counters and the "
